@@ -18,8 +18,8 @@ PROPERTY = "C19"
 LEVEL = "fault_enumeration"
 RULE = ("E1 x fault sequences: accounts (built-in per region, custom with '+@_'), device ids in both byte orders, token lists with "
         "the matching entry absent / first / middle / last / among near misses (one hex digit off, other letter case, prefix); per "
-        "request (login-id, login, getToken) every answer sequence over {ok, timeout, HTTP 500/404/302, API error, connection dropped, undecodable body} up to the retry budget "
-        "(quick tier: 14 patterns each, 2744 flows; thorough tier: all 22 sequences of k <= 2 timeouts followed by each of the 7 terminal answers, or three timeouts, per request: 10648 flows). The real NetHomePlusCloud runs over httpx.MockTransport against a reference server that "
+        "request (login-id, login, getToken) every answer sequence over {ok, timeout, HTTP 500/502/503/504/404/302, API error, connection dropped, undecodable body} up to the retry budget "
+        "(quick tier: 17 patterns each, 4913 flows; thorough tier: all 31 sequences of k <= 2 timeouts followed by each of the 10 terminal answers, or three timeouts, per request: 29791 flows). The real NetHomePlusCloud runs over httpx.MockTransport against a reference server that "
         "verifies signature, constant fields, time stamp, login-id/password derivation and session id of EVERY request. Oracle: no "
         "request rejected by the server; attempts per request as the retry contract says; (token,key) of the exact match only; "
         "failures are CloudError. Discover.discover(auto_connect=True) against a simulated V3 device whose credentials are "
@@ -29,8 +29,8 @@ ASSUMPTIONS = ["the reference server encodes the NetHome Plus contract as implem
                "like the real cloud, the server answers an unregistered udpid with an entry that the device will not accept"]
 PATTERNS = [("ok",), ("timeout", "ok"), ("timeout", "timeout", "ok"), ("timeout", "timeout", "timeout"),
             ("500",), ("timeout", "500"), ("timeout", "timeout", "500"), ("api",), ("timeout", "api"), ("timeout", "timeout", "api"),
-            ("302",), ("timeout", "404"), ("proto",), ("timeout", "decode")]
-TERMINALS = ["ok", "500", "404", "302", "api", "proto", "decode"]
+            ("302",), ("timeout", "404"), ("proto",), ("timeout", "decode"), ("503",), ("timeout", "502"), ("timeout", "timeout", "504")]
+TERMINALS = ["ok", "500", "502", "503", "504", "404", "302", "api", "proto", "decode"]
 # thorough tier: EVERY answer sequence up to a budget of 3 (k timeouts followed by each terminal answer, and three timeouts)
 PATTERNS_T = [("timeout",) * k + (t,) for k in range(3) for t in TERMINALS] + [("timeout",) * 3]
 EPS = ["/v1/user/login/id/get", "/v1/user/login", "/v1/iot/secure/getToken"]
@@ -287,13 +287,14 @@ def special_ids():
 
 def run_discover4(st: Stats, variant: int):
     """Three V3 devices authenticated concurrently by one discovery: every mix of byte orders, and of devices that reject the
-    wrong-order credentials at once / only by not answering (so that the attempts of different devices overlap in time)."""
+    wrong-order credentials at once / only by not answering / with an error packet followed by a hang-up (so that the attempts of different devices overlap in time)."""
     from itertools import product
     combos = list(product(("little", "big"), repeat=3))
     for ci, endians in enumerate(combos):
         if ci % 4 != variant:
             continue
-        for unknowns in (("error", "silent", "error"), ("silent", "error", "silent"), ("silent", "silent", "silent")):
+        for unknowns in (("error", "silent", "error"), ("silent", "error", "silent"), ("silent", "silent", "silent"),
+                         ("close", "close", "error"), ("silent", "close", "close")):
             w = World()
             acc = ACCOUNTS[(ci + variant) % len(ACCOUNTS)]
             region, account, password = creds_for(acc)
@@ -396,7 +397,8 @@ def run_discover(st: Stats, variant: int):
     """auto_connect discovery of a V3 device registered under the little- or big-endian udpid."""
     for did in (0x0000_1122_3344_5566 & (2 ** 48 - 1), 1, 0xA1B2C3D4E5F6, 0x00FF00FF00FF) + special_ids():
         for endian in ("little", "big"):
-            for acc, unknown in ((ACCOUNTS[variant], "error"), (ACCOUNTS[(variant + 3) % len(ACCOUNTS)], "silent")):
+            for acc, unknown in ((ACCOUNTS[variant], "error"), (ACCOUNTS[(variant + 3) % len(ACCOUNTS)], "silent"),
+                                 (ACCOUNTS[(variant + 5) % len(ACCOUNTS)], "close")):
                 w = World()
                 region, account, password = creds_for(acc)
                 token, key = filler(f"c19/t{did}", 64), filler(f"c19/k{did}", 32)
